@@ -34,7 +34,7 @@ type RunResult struct {
 }
 
 // WatchdogSeconds is the real-time budget of one case.
-var WatchdogSeconds = 30
+var WatchdogSeconds = 20
 
 // Journal, if set, is called with the goroutine dump when the watchdog fires,
 // before the process exits.
@@ -47,8 +47,19 @@ func Bubble(t *testing.T, f func()) (res RunResult) {
 		buf := make([]byte, 8<<20)
 		n := runtime.Stack(buf, true)
 		dump := string(buf[:n])
+		time.Sleep(time.Second)
+		buf2 := make([]byte, 8<<20)
+		n2 := runtime.Stack(buf2, true)
+		sig1, idle1 := bubbleSignature(dump)
+		sig2, idle2 := bubbleSignature(string(buf2[:n2]))
+		definitive := sig1 == sig2 && idle1 && idle2
 		if Journal != nil {
 			Journal(dump)
+		}
+		if definitive {
+			// two identical dumps one second apart, every bubble goroutine parked
+			// on a channel, select or mutex: a deadlock, not a slow machine
+			fmt.Fprintf(os.Stdout, "\nVERIF-WEDGE-DEFINITIVE: all goroutines of the case are blocked (channel/select/mutex) and nothing changed within 1s\n")
 		}
 		fmt.Fprintf(os.Stdout, "\nVERIF-WEDGE: case did not finish or quiesce within %ds of real time\n", WatchdogSeconds)
 		os.Exit(WedgeExitCode)
@@ -143,4 +154,28 @@ func StackSites(stacks []string) []string {
 		out = append(out, site)
 	}
 	return out
+}
+
+// bubbleSignature summarises the goroutines that belong to synctest bubbles:
+// a string of (id, state, top frames) and whether all of them are blocked.
+func bubbleSignature(dump string) (string, bool) {
+	var sb strings.Builder
+	idle := true
+	for _, b := range strings.Split(dump, "\n\n") {
+		h := hdrRe.FindStringSubmatch(b)
+		if h == nil || !strings.Contains(h[2], "synctest bubble") {
+			continue
+		}
+		st := h[2]
+		if strings.HasPrefix(st, "running") || strings.HasPrefix(st, "runnable") || strings.HasPrefix(st, "syscall") {
+			idle = false
+		}
+		lines := strings.Split(b, "\n")
+		if len(lines) > 5 {
+			lines = lines[:5]
+		}
+		// drop the "N minutes" wait-time decoration
+		sb.WriteString(h[1] + "|" + strings.SplitN(st, ",", 2)[0] + "|" + strings.Join(lines[1:], "|") + "\n")
+	}
+	return sb.String(), idle
 }
